@@ -60,6 +60,12 @@ def run(c):
         e.update(env)
         g = c.gotest("valset", "TestReplay", env=e, timeout=3000, tag="replay " + tag)
         c.absorb(g)
+        # the specification orders validators (ties of priority and of power) by the BYTES of the address: the same
+        # transitions with a second table of concrete addresses, chosen so that textual orders (hex, checksummed hex)
+        # disagree with the byte order for many pairs
+        e["VSET_ADDRS"] = "mixed"
+        g = c.gotest("valset", "TestReplay", env=e, timeout=3000, tag="replay " + tag + ", mixed-case addresses")
+        c.absorb(g)
         os.remove(dump)
     # the updateState clause (rotation advanced AFTER the block's change set is applied) lives in kai/state/cstate:
     # chains of the cstore specification replayed into the real updateState (specs/cstore, harness/cstore)
